@@ -118,6 +118,16 @@ def search(pid, record):
     if pid == "C09":
         import durability
         return durability.search(binary)
+    if pid == "C17":
+        c = _run(binary, ["store-closed"])
+        for line in c.stdout.splitlines():
+            if line.startswith("{") and json.loads(line).get("found"):
+                w = json.loads(line)
+                w["scenario"] = "store-closed"
+                return w
+        if c.returncode != 0:
+            return {"found": True, "scenario": "store-closed", "kind": "process-died", "props": "C17",
+                    "observed": "replayer store-closed exited with %d: %s" % (c.returncode, c.stderr[-300:]), "expected": "Err(Closed)"}
     if pid == "C03":
         import crashsearch
         r = crashsearch.search(binary)
@@ -173,6 +183,10 @@ def execute(w):
         import durability
         r = durability.search(binary)
         return (not r.get("found")), json.dumps(r)[:700]
+    if w.get("scenario") == "store-closed":
+        p = _run(binary, ["store-closed"])
+        found = p.returncode != 0 or any(l.startswith("{") and json.loads(l).get("found") for l in p.stdout.splitlines())
+        return (not found), p.stdout.strip()[-700:]
     if w.get("scenario") == "server-hostile":
         p = _run(binary, ["server-hostile"], timeout=300)
         found = p.returncode != 0 or any(l.startswith("{") and json.loads(l).get("found") for l in p.stdout.splitlines())
